@@ -102,6 +102,13 @@ class MaskV:
         self.arr, self.op, self.rhs = arr_ref, op, rhs
 
 
+class MaskedV:
+    """a[a <op> x]: only its length (.shape[0]) is ever used"""
+
+    def __init__(self, mask, node):
+        self.mask, self.node = mask, node
+
+
 class IdxSetV:
     """np.argwhere(mask).flatten()"""
 
@@ -268,6 +275,13 @@ class Ctx:
     def new_oid(self):
         return next(self.oid_counter)
 
+    def entry_for_reads(self, st):
+        """state in which a read-guard is evaluated: entry values of the parameters, current path condition"""
+        e = self.entry.copy()
+        e.pc = st.pc
+        e.heap = dict(st.heap)
+        return e
+
     def named_oid(self, name):
         if name not in self.named:
             self.named[name] = self.new_oid()
@@ -411,6 +425,11 @@ class Interp:
             return st.bound[n]
         if n in st.locals:
             v = st.locals[n]
+            ro = self.ctx.contract.options.get("reads_only_if")
+            if ro and n in ro and not st.spec and self.ctx.cur_func.split("[")[0] == self.ctx.contract.name:
+                from .spec import eval_clause
+                g = eval_clause(self, ro[n], self.ctx.entry_for_reads(st), +1)
+                self.ctx.oblige("reads", g, st, node, n, ("C20",), note="%s may be read only if %s" % (n, ro[n]))
             if isinstance(v, MaybeUnbound):
                 self.ctx.oblige("defined", v.cond, st, node, n, SAFETY_TAG,
                                 note="local '%s' must be assigned on every path reaching this read (UnboundLocalError)" % n)
@@ -455,6 +474,10 @@ class Interp:
             return TupleV([len(base.items)])
         if isinstance(base, IdxSetV):
             return FuncV("idxmethod", a, base)
+        if isinstance(base, MaskedV):
+            if a == "shape":
+                return TupleV([self.count_mask(base.mask, st, node)])
+            raise ToolLimit("attribute .%s of a masked array" % a)
         if isinstance(base, FuncV):
             return FuncV(base.kind + "." + base.name, a, base.recv)
         if isinstance(base, Opaque):
@@ -677,7 +700,9 @@ class Interp:
         return c
 
     def masked(self, base, mask, st, node):
-        return FuncV("masked", "masked", (base, mask))
+        if not (isinstance(base, Ref) and base.oid == mask.arr.oid):
+            raise ToolLimit("boolean mask over a different array (line %s)" % node.lineno)
+        return MaskedV(mask, node)
 
     # ------------------------------------------------------------------ calls
     def ev_Call(self, node, st):
